@@ -224,7 +224,7 @@ def run(cx: Cx):
             idx = info['index']
             M = mk_cmp(Attr(s_sym, 'priority'), '>', Attr(Sub(Q, idx), 'priority'))
             F = f_and(*[c.data['formula'] for c in conds])
-            inserted_here = e in idx_events
+            inserted_here = e in idx_events or (k == len(scan) - 1 and not e.loops and e.data.get('store') == 'insert' and _after_scan_hit(p, e))
             want = M if inserted_here else f_not(M)
             F0 = _strip(F)
             cex = compare(F0, want, domain='int')
@@ -253,7 +253,7 @@ def run(cx: Cx):
                     break
         if bad:
             continue
-        if not any(e in idx_events for _, _, idx_events in scan):
+        if not any(e in idx_events for _, _, idx_events in scan) and not (e.data.get('store') == 'insert' and _after_scan_hit(p, e)):
             # insertion outside the scan: must be a tail append after an exhausted scan
             if e.data.get('store') != 'append':
                 cx.violation('R-GUARD', add.qualname, 'tail-append-when-no-match',
@@ -457,6 +457,9 @@ def _insertion_shape(cx, add, ps):
                         return 'unknown', f"bisect.{k} without key=lambda x: -x.priority (placement depends on how System objects compare)"
                     kinds.add('bisect-left' if k == 'insort_left' else 'bisect')
                 elif k == 'insert':
+                    if not e.loops and _after_scan_hit(p, e):
+                        kinds.add('scan')       # search (a scan left at the first hit) and insertion at the found position
+                        continue
                     if not e.loops:
                         key = e.data.get('key')
                         if isinstance(key, App) and key.fn == 'next' and len(key.args) == 2 and isinstance(key.args[0], Fresh) \
@@ -476,6 +479,28 @@ def _insertion_shape(cx, add, ps):
     if has_while:
         return 'unknown', 'the position is searched with a while loop'
     return 'scan', ''
+
+
+def _after_scan_hit(p, e) -> bool:
+    """The insertion e follows a scan loop that was left in the iteration whose position is e's insertion index (the search
+    and the insertion written as two steps: `i = find(...); queue.insert(i, s)`), with no queue write in between."""
+    evs = p.events
+    k = evs.index(e)
+    its = [x for x in evs[:k] if x.kind == 'iter' and len(x.loops) == 1]
+    if not its:
+        return False
+    last = its[-1]
+    idx = last.data['info'].get('index')
+    if idx is None or e.data.get('key') != idx:
+        return False
+    j = evs.index(last)
+    # the loop was left from that iteration (no later iteration, no exhaustion) and nothing wrote the queue since
+    for x in evs[j + 1:k]:
+        if x.kind == 'endloop' and x.node is last.node and x.data.get('how') == 'exhausted':
+            return False
+        if x.kind == 'store' and x.data.get('loc') == QLOC:
+            return False
+    return True
 
 
 def _strip(f):
